@@ -19,9 +19,31 @@ type Hidden struct {
 
 // Boards holds arrays of arrays that are not square.
 type Boards struct {
-	Wide [2][3]Sparse
-	Tall [3][2]bool
+	Wide  [2][3]Sparse
+	Tall  [3][2]bool
+	Cells [300]Sparse
+	Bits  [130]bool
 }
+
+// Doc has a field that shadows one of the struct it embeds; the embedded one
+// is not to be filled.
+type Doc struct {
+	Kind DocKind
+	Meta
+}
+
+type Meta struct {
+	Kind   string `gomacro-data:"ignore"`
+	Author string
+}
+
+type DocKind int
+
+const (
+	Memo DocKind = iota + 1
+	Letter
+	Invoice
+)
 
 // Request uses named types of standard packages whose paths sort after the
 // module path.
